@@ -48,6 +48,8 @@ def scenario(kind, ending, idx, fault, k, init_state=None, stateful=False, m=0):
                 rec["marks_at_landing"] = list(T.MARKS)
                 rec["released_early"] = L.released_by_deadlock
                 rec["stalled"] = L.stalled
+                if rec["landed"]:
+                    rec["user_state_at_landing"] = w.user_state
                 rec["term"] = w.terminate(timeout=TMO)
                 rec["marks_after_term"] = list(T.MARKS)
             elif fault == 2:
@@ -75,6 +77,14 @@ def scenario(kind, ending, idx, fault, k, init_state=None, stateful=False, m=0):
             rec["obs1"], rec["obs1_err"] = wsim.observe(w)
             rec["obs2"], rec["obs2_err"] = wsim.observe(w)
             rec["user_state"] = w.user_state
+            rec["state_log"] = list(T.STATE_LOG)
+            try:
+                w.user_state = "from-parent"
+                rec["setter"] = "accepted"
+            except RuntimeError:
+                rec["setter"] = "RuntimeError"
+            except Exception as e:  # noqa
+                rec["setter"] = type(e).__name__
             if wsim.is_persistent(kind):
                 rec["stream"] = drain(w)
         except Hang:
